@@ -10,4 +10,4 @@ Require Import ExtrOcamlBasic.
 Definition glue_types : result N := Err EoNError.
 
 Extraction "../ocaml/gen/c07x_model.ml" glue_types dEBCM_pref_mix pmd_init pmd_step pmd_loop pmd_view uncorrelated
-  Phi_sc DPhi_sc Phi_cp DPhi_cp Psi_cp DPsi_cp Phi_ced DPhi_ced Phi_pm DPhi_pm peval pderiv Qred.
+  Phi_sc DPhi_sc Phi_cp DPhi_cp Psi_cp DPsi_cp Phi_ced DPhi_ced Phi_ed DPhi_ed Phi_pm DPhi_pm peval pderiv Qred.
